@@ -450,6 +450,16 @@ def check_format_sites(ctx, rule, module_filter=None, floor=30):
         escs = set(k for k, f in facts.fns.items() if f.kind != "Closure" and len(f.blocks) < 80 and
                    any(p in ("&str", "&[u8]", "&std::string::String") for p in (f.params or [])) and
                    TK.is_name_escaper_by_constants(facts, k))
+        # thin wrappers that hand their own text parameter to an escaper (`write_name(out, name)` -> `escape_pdf_name(name)`)
+        for k, f in facts.fns.items():
+            if k in escs or f.kind == "Closure" or len(f.blocks) > 40 or not any(p in ("&str", "&[u8]", "&std::string::String") for p in (f.params or [])):
+                continue
+            flw = FL.flow(f)
+            for b, c, a, d, t, u in f.calls():
+                if isinstance(c, dict) and c.get("r") in escs:
+                    seen, _ = flw.back_slice([l for o in a for l in FL.op_locals(o)])
+                    if any(1 <= x <= f.nargs and f.locals[x] in ("&str", "&[u8]", "&std::string::String") for x in seen):
+                        escs = escs | {k}
         facts._name_escapers = escs
     for fn in facts.fns.values():
         owner = fn.parent or fn.id
